@@ -25,23 +25,38 @@ static void fold_merge(void *clos, const uint8_t *key, size_t kl, const uint8_t 
 	(*out)[0] = '('; memcpy(*out + 1, v0, l0); (*out)[1 + l0] = '+'; memcpy(*out + 2 + l0, v1, l1); (*out)[2 + l0 + l1] = ')';
 }
 
-typedef struct { int n; int key[8]; size_t M; int pool; int mode; /* 0 iterate, 1 sorter_write */ int nomerge; size_t vpad; } scase;
+/* second merge style: values are unary counts ("xxxx") or decimal sums ("#12"); the result "#<sum>" is usually SHORTER than its operands.
+ * Entry i carries the count 2^i, so the final sum names exactly which values were folded, each once. */
+static uint64_t sum_parse(const uint8_t *v, size_t l) { if (l && v[0] == '#') { uint64_t n = 0; for (size_t i = 1; i < l; i++) n = n * 10 + (v[i] - '0'); return n; } return l; }
+static void sum_merge(void *clos, const uint8_t *key, size_t kl, const uint8_t *v0, size_t l0, const uint8_t *v1, size_t l1, uint8_t **out, size_t *outl) {
+	(void) clos; (void) key; (void) kl; char b[32]; int n = snprintf(b, sizeof b, "#%llu", (unsigned long long) (sum_parse(v0, l0) + sum_parse(v1, l1)));
+	*out = malloc(n); memcpy(*out, b, n); *outl = n;
+}
+typedef struct { int n; int key[8]; size_t M; int pool; int mode; /* 0 iterate, 1 sorter_write */ int nomerge; size_t vpad; int mstyle; /* 0 fold tree, 1 shrinking sum */ } scase;
 static void render(char *b, size_t n, void *ctx) {
-	scase *c = ctx; int o = snprintf(b, n, "Z:%d:%zu:%d:%d:%zu:", c->pool, c->M, c->mode, c->nomerge, c->vpad);
+	scase *c = ctx; int o = snprintf(b, n, "Z:%d:%zu:%d:%d:%zu:", c->pool, c->M, c->mode, c->nomerge + 2 * c->mstyle, c->vpad);
 	for (int i = 0; i < c->n; i++) o += snprintf(b + o, n - o, "%d", c->key[i]);
 }
 
 static size_t mkval(const scase *c, int i, uint8_t *out) {
+	if (c->mstyle == 1) { size_t n = (size_t) 1 << i; memset(out, 'x', n); return n; }
 	size_t n = sprintf((char *) out, "t%d", i);
 	if (c->vpad) { memset(out + n, '.', c->vpad); n += c->vpad; }
 	return n;
 }
 /* leaves of a fold tree must be exactly the values added for key ki */
 static bool leaves_ok(const scase *c, int ki, const uint8_t *v, size_t vl, char *why, size_t wn) {
+	if (c->mstyle == 1) {
+		uint64_t want = 0; int nw = 0; for (int i = 0; i < c->n; i++) if (c->key[i] == ki) { want += 1ull << i; nw++; }
+		for (size_t i = (vl && v[0] == '#') ? 1 : 0; i < vl; i++) if (v[0] == '#' ? (v[i] < '0' || v[i] > '9') : v[i] != 'x') { snprintf(why, wn, "value is neither a unary count nor a decimal sum (stale bytes?): %.*s", (int) (vl > 24 ? 24 : vl), v); return false; }
+		if (nw == 1 && (vl == 0 || v[0] == '#')) { snprintf(why, wn, "single value must pass unchanged"); return false; }
+		if (sum_parse(v, vl) != want) { snprintf(why, wn, "value sums to %llu, the values added for the key sum to %llu", (unsigned long long) sum_parse(v, vl), (unsigned long long) want); return false; }
+		return true;
+	}
 	unsigned want = 0, seen = 0; int nwant = 0;
 	for (int i = 0; i < c->n; i++) if (c->key[i] == ki) { want |= 1u << i; nwant++; }
 	size_t i = 0; int depth = 0, nl = 0;
-	uint8_t *tmp = malloc(c->vpad + 32);
+	uint8_t *tmp = malloc(c->vpad + 300);
 	while (i < vl) {
 		if (v[i] == '(') { depth++; i++; continue; }
 		if (v[i] == ')') { depth--; i++; if (depth < 0) { snprintf(why, wn, "unbalanced fold tree"); free(tmp); return false; } continue; }
@@ -70,12 +85,12 @@ static void run(scase *c) {
 	struct mtbl_sorter_options *so = mtbl_sorter_options_init();
 	mtbl_sorter_options_set_temp_dir(so, mk_dir);
 	mtbl_sorter_options_set_max_memory(so, c->M);
-	if (!c->nomerge) mtbl_sorter_options_set_merge_func(so, fold_merge, NULL);
+	if (!c->nomerge) mtbl_sorter_options_set_merge_func(so, c->mstyle ? sum_merge : fold_merge, NULL);
 	if (g_pool) mtbl_sorter_options_set_threadpool(so, g_pool);
 	struct mtbl_sorter *s = mtbl_sorter_init(so);
 	mtbl_sorter_options_destroy(&so);
 	mk_calls = 0; mk_bad[0] = 0;
-	uint8_t *vb = malloc(c->vpad + 32);
+	uint8_t *vb = malloc(c->vpad + 300);
 	size_t buffered = 0; int spills_seen = 0;
 	for (int i = 0; i < c->n; i++) {
 		size_t vl = mkval(c, i, vb);
@@ -162,6 +177,7 @@ int main(int argc, char **argv) {
 	if (vh_case_arg) {
 		char ks[32] = "";
 		if (sscanf(vh_case_arg, "Z:%d:%zu:%d:%d:%zu:%31s", &c.pool, &c.M, &c.mode, &c.nomerge, &c.vpad, ks) < 5) return 2;
+		c.mstyle = c.nomerge / 2; c.nomerge %= 2;
 		c.n = (int) strlen(ks); for (int i = 0; i < c.n; i++) c.key[i] = ks[i] - '0';
 		run(&c);
 	} else {
@@ -182,6 +198,8 @@ int main(int argc, char **argv) {
 					size_t cost = 0; for (int i = 0; i < n; i++) cost += 16 + SK[c.key[i]].n + 2;
 					/* every budget from 1 byte to just above everything-in-memory */
 					for (size_t M = 1; M <= cost + 2; M += pool ? 5 : (vh_thorough ? (n > 6 ? 7 : 1) : (n > 5 ? 3 : 1))) for (int md = 0; md < 2; md++) { c.M = M; c.mode = md; run(&c); }
+					/* shrinking merge results (in-place update paths): unary values of length 2^i, budgets from one entry per chunk to everything in memory */
+					if (n && n <= 7) { c.mstyle = 1; size_t cost2 = 0; for (int i = 0; i < n; i++) cost2 += 16 + SK[c.key[i]].n + ((size_t) 1 << i); for (size_t M = 1; M <= cost2 + 2; M += 1 + cost2 / 24) { c.M = M; c.mode = (int) (M & 1); run(&c); } c.mstyle = 0; }
 					/* no merge function: legal when all keys are distinct */
 					bool distinct = true; for (int i = 0; i < n; i++) for (int j = i + 1; j < n; j++) if (c.key[i] == c.key[j]) distinct = false;
 					if (distinct && n) { c.nomerge = 1; for (size_t M = 1; M <= cost + 2; M += 7) { c.M = M; c.mode = 0; run(&c); } c.nomerge = 0; }
